@@ -379,3 +379,23 @@ def parser_statics_reset():
         out.append({"name": name, "ok": ok, "info": f"class-level state {key} is re-initialised for every document",
                     "detail": where or f"write sites {sites}; none is a top-level assignment in {sorted(q for _, q in init_chain)}"})
     return out
+
+
+@check("C11", "C20")
+def pragma_lines_single_writer():
+    """the only place that stores a line into ParseBlockPassProperties.pragma_lines is PragmaExtension.look_for_pragmas; the
+    map object is replaced only by TokenizedMarkdown.__parse_blocks_pass / ParseBlockPassProperties.__init__; and
+    look_for_pragmas is called only from ContainerBlockProcessor.__look_for_pragmas under the pragmas-enabled flag"""
+    sites = []
+    for rel, full in py_files():
+        for q, fn in enclosing_functions(parse(full)):
+            for n in ast.walk(fn):
+                if isinstance(n, ast.Subscript) and isinstance(n.ctx, (ast.Store, ast.Del)) and isinstance(n.value, ast.Attribute) and n.value.attr == "pragma_lines":
+                    sites.append((rel, q, n.lineno, "item"))
+                if isinstance(n, ast.Attribute) and isinstance(n.ctx, (ast.Store, ast.Del)) and n.attr == "pragma_lines":
+                    sites.append((rel, q, n.lineno, "rebinding"))
+    ok_item = [x for x in sites if x[3] == "item"]
+    bad = [x for x in ok_item if not (x[0] == "pymarkdown/extensions/pragma_token.py" and x[1] == "PragmaExtension.look_for_pragmas")]
+    bad += [x for x in sites if x[3] == "rebinding" and x[1] not in ("TokenizedMarkdown.__parse_blocks_pass", "ParseBlockPassProperties.__init__")]
+    return [{"name": "structural::C11::pragma_lines_single_writer", "ok": not bad and bool(ok_item), "info": pragma_lines_single_writer.__doc__,
+             "detail": f"sites {sites} unexpected {bad}"}]
